@@ -85,6 +85,12 @@ C11Cmds(i) ==
   { Cmd("require", i, "", 0, m, Forms[f]) : m \in ModIds, f \in DOMAIN Forms }
   \cup { Cmd("bump", i, n, 1, "", "") : n \in UNION {{m, Alias(m), NBump(m)} : m \in ModIds} }
 
+\* c11 with a single entry point: every form of requiring the first module
+\* (all graph shapes are generated, so this reaches every rooted shape)
+C11Entry(i) ==
+  { Cmd("require", i, "", 0, ModSeq[1], Forms[f]) : f \in DOMAIN Forms }
+  \cup { Cmd("bump", i, n, 1, "", "") : n \in UNION {{m, Alias(m), NBump(m)} : m \in ModIds} }
+
 Cmds == UNION {CmdsOf(i) : i \in Interps}
 
 Act(id, form) == [id |-> id, form |-> form, ph |-> "push", pc |-> 0,
@@ -381,7 +387,8 @@ Obs(i) ==
               ELSE NoMem]]
 
 ExportState ==
-  ctl.ph = "idle" => Emit(TRUE, "STATE", [key |-> Key, obs |-> [i \in Interps |-> Obs(i)]])
+  ctl.ph \in {"idle", "failed", "done"} =>
+     Emit(TRUE, "STATE", [key |-> Key, obs |-> [i \in Interps |-> Obs(i)]])
 
 -----------------------------------------------------------------------------
 (* Properties *)
